@@ -2066,6 +2066,14 @@ class BaseInterpreter(Generic[TContext, TEvent]):
                     return [resolved]
             if parent.initial and parent.initial in parent.states:
                 return [parent.states[parent.initial]]
+            # 🌐 A parallel parent has no `initial`: its normal entry is every
+            #    region. Returning nothing here left only the ancestors active.
+            if parent.type == "parallel":
+                return [
+                    child
+                    for child in parent.states.values()
+                    if child.type != "history"
+                ]
             return []
 
         # 🔀 `remembered` was built by iterating a set (or read back from a
